@@ -500,5 +500,28 @@ func VerifRoundTrips() {
 	for u, n := range calls {
 		verifAssert(n <= len(levels[u]), "batched calls to a service never exceed the plan levels it appears at")
 	}
+	// inside one batched call, a lookup (sub-query, id) that carries no other variable appears once,
+	// whichever plan steps asked for it
+	idx := 0
+	for _, size := range f.batch {
+		if idx+size > len(f.log) {
+			break
+		}
+		call := f.log[idx : idx+size]
+		idx += size
+		for i := range call {
+			if len(call[i].vars) != 1 || call[i].vars["id"] == nil {
+				continue
+			}
+			for j := 0; j < i; j++ {
+				if len(call[j].vars) == 1 && call[j].query == call[i].query && call[j].vars["id"] == call[i].vars["id"] {
+					verifAssert(false, "identical lookups of one entity in one batched call are sent once: "+vNorm(call[i].query))
+				}
+			}
+		}
+		if size > 1 {
+			verifReach("batched call inspected")
+		}
+	}
 	verifReach("round trips counted")
 }
